@@ -1,8 +1,6 @@
 //! Common functions and constants for converting variables into different
 //! [`Value`] types or check, extract and extend [`Value::Array`] variables.
 
-use std::collections::HashSet;
-
 use super::{
     default_string,
     error::{NativeError, NativeResult},
@@ -523,11 +521,12 @@ pub fn str(params: &[Value]) -> NativeResult {
 pub fn unique(params: &[Value]) -> NativeResult {
     match params {
         [Value::Array(values)] => {
-            let mut unique: HashSet<&Value> = HashSet::with_capacity(values.len());
+            // `Value` equality spans kinds (`1 = '1'`) while its hash does not,
+            // so a HashSet would make the result depend on the hasher state
             let mut result: Vec<Value> = vec![];
 
             for value in values {
-                if unique.insert(value) {
+                if !result.contains(value) {
                     result.push(value.clone());
                 }
             }
